@@ -5,6 +5,8 @@ package main
 
 import (
 	"fmt"
+	"go/constant"
+	"go/token"
 	"go/types"
 
 	"golang.org/x/tools/go/ssa"
@@ -21,6 +23,8 @@ func init() {
 		pd.Explanation += " " + explain
 	}
 	wrap("C01", c01Extra, "R9 (added): the wildcard next-closer check in Resolver.answer sees only authority records already filtered to the validated signer zone (resp.Ns = FilterRRsToZone(resp.Ns, signer) precedes it on every path).")
+	wrap("C05", c05Extra, "R9 (added): the AD verdict of a wire-composed alias chase is a conjunction over every segment (each segs[i].ad with the loop index, never one fixed hop), as the decoded path computes it.")
+	wrap("C06", c06Extra, "R8 (added): the has-DNSSEC verdict of a stored wire body is taken from the answer AND authority sections (the guard of the flag compares the record index with ANCount+NSCount), so a signed negative answer is never handed unstripped to a DO=0 client.")
 	wrap("C14", c14Extra, "R5 (added): the raw RSA verifier compares the recovered encoding at full modulus width — both ConstantTimeCompare operands have length = the modulus size by construction (a fresh make(size) buffer or FillBytes into one), never the zero-stripped big.Int bytes.")
 	wrap("C02", c02Extra, "R9 (added): the aggressive-NSEC closest encloser is derived from BOTH names of the covering record (shared-suffix count with owner and with next, the larger of the two), as RFC 8198/4035 require.")
 	wrap("C13", c13Extra, "R8 (added): a stored failure is turned into a hit (failureEntry.hit) only behind now.Before(<that entry>.retryAfter) — on the Msg and the wire lookup alike — so suppression ends with the backoff.")
@@ -375,5 +379,104 @@ func c02Extra(c *Ctx) {
 		} else {
 			c.violation("C02-R9", key, instrPos(in), fmt.Sprintf("the closest encloser ignores one name of the covering NSEC (owner used=%v, next used=%v)", hasOwner, hasNext))
 		}
+	}
+}
+
+func c05Extra(c *Ctx) {
+	c.Doc("C05-R9", "composeWireChase: the value that decides ClearAD / WireInfo.AuthenticatedData is an AND-fold over all segments — its leaves are the constants and wireChaseSegment.ad loaded with the loop index; a fixed-index hop (segs[0].ad) is the alias-only verdict the Msg path does not use")
+	fn := c.fn("C05-R9", "middleware/cache.composeWireChase")
+	segAD := c.field("C05-R9", "middleware/cache.wireChaseSegment.ad")
+	clearAD := c.fobj("C05-R9", "internal/wire.ClearAD")
+	if fn == nil || segAD == nil || clearAD == nil {
+		return
+	}
+	// the ad verdict: the condition of the branch that guards the first ClearAD
+	n := 0
+	for _, b := range fn.Blocks {
+		if len(b.Instrs) == 0 {
+			continue
+		}
+		iff, ok := b.Instrs[len(b.Instrs)-1].(*ssa.If)
+		if !ok {
+			continue
+		}
+		a, _ := Truthy(condOf(iff))
+		if a == nil || !Contains(FieldIs(segAD))(a) {
+			continue
+		}
+		// a branch directly on one segment's flag inside the loop is not the merged verdict
+		if sa := strip(a); sa.K == EField && sa.X != nil && sa.X.K == EIndex && !IsAnyConst(sa.X.Y) {
+			continue
+		}
+		n++
+		varIdx, constIdx := 0, 0
+		var bad []string
+		for _, l := range Origins(a, nil) {
+			l = strip(l)
+			switch {
+			case IsAnyConst(l):
+			case l.K == EField && l.Var == segAD && l.X != nil && l.X.K == EIndex:
+				if IsAnyConst(l.X.Y) {
+					constIdx++
+				} else {
+					varIdx++
+				}
+			case l.K == EUnknown:
+			default:
+				bad = append(bad, l.String())
+			}
+		}
+		key := "C05-R9|composeWireChase|AD is an AND over every segment"
+		switch {
+		case len(bad) > 0:
+			c.violation("C05-R9", key, instrPos(iff), fmt.Sprintf("the merged AD verdict has inputs other than the segments' ad flags: %v", bad))
+		case constIdx > 0 || varIdx == 0:
+			c.violation("C05-R9", key, instrPos(iff), fmt.Sprintf("the merged AD verdict reads a fixed segment (constant index ×%d, loop index ×%d): AD=1 can cover an unvalidated hop", constIdx, varIdx))
+		default:
+			c.ok("C05-R9", key, instrPos(iff), "AD verdict folds segs[i].ad over the loop index")
+		}
+	}
+	if n == 0 {
+		c.unresolved("C05-R9", "composeWireChase AD verdict", "no branch on a value built from wireChaseSegment.ad found")
+	}
+}
+
+func c06Extra(c *Ctx) {
+	c.Doc("C06-R8", "prepareWireServe: wireHasDNSSEC is set only behind `record index < ANCount+NSCount` — the bound mentions both header counts — so RRSIG/NSEC/NSEC3 in the authority section mark the body as DNSSEC-bearing (the DO=0 route then serves the stripped body or declines)")
+	fn := c.fn("C06-R8", "middleware/cache.prepareWireServe")
+	an := c.field("C06-R8", "internal/wire.Header.ANCount")
+	ns := c.field("C06-R8", "internal/wire.Header.NSCount")
+	flagC := c.P.ConstVal("middleware/cache.wireHasDNSSEC")
+	if fn == nil || an == nil || ns == nil || flagC == nil {
+		if flagC == nil {
+			c.unresolved("C06-R8", "middleware/cache.wireHasDNSSEC", "constant not found")
+		}
+		return
+	}
+	flagV, _ := constant.Int64Val(constant.ToInt(flagC))
+	isSet := func(in ssa.Instruction) bool {
+		bo, ok := in.(*ssa.BinOp)
+		if !ok || bo.Op != token.OR {
+			return false
+		}
+		for _, op := range []ssa.Value{bo.X, bo.Y} {
+			if k, ok := op.(*ssa.Const); ok && k.Value != nil {
+				if v, ok := constant.Int64Val(constant.ToInt(k.Value)); ok && v == flagV {
+					return true
+				}
+			}
+		}
+		return false
+	}
+	ar := c.field("C06-R8", "internal/wire.Header.ARCount")
+	// the bound is ANCount+NSCount: both counts, and not the additional section (the loop bound itself adds ARCount)
+	both := func(e *Expr) bool {
+		return Contains(FieldIs(an))(e) && Contains(FieldIs(ns))(e) && !Contains(FieldIs(ar))(e)
+	}
+	c.MustCross("C06-R8", fn, "flags |= wireHasDNSSEC", isSet,
+		OnCmp("i < ANCount+NSCount", func(e *Expr) bool { return true }, token.LSS, both, true))
+	// and the type test in front of it names all three DNSSEC types (C05-R5 checks the set); here: the flag is reachable at all
+	if len(instrsWhere(fn, isSet)) == 0 {
+		c.unresolved("C06-R8", "prepareWireServe", "wireHasDNSSEC is never set")
 	}
 }
